@@ -11,10 +11,12 @@ pub struct SpecCfg {
     pub period_factor: f64,
     /// (from_ms, to_ms) relative to T0 during which the spectator does not tick at all
     pub pauses: Vec<(u64, u64)>,
+    /// whether the spectator's user drains events() every tick
+    pub drain: bool,
 }
 impl SpecCfg {
     pub fn new(host: usize) -> Self {
-        SpecCfg { host, catchup: 1, max_behind: 10, period_factor: 1.0, pauses: vec![] }
+        SpecCfg { host, catchup: 1, max_behind: 10, period_factor: 1.0, pauses: vec![], drain: true }
     }
 }
 
